@@ -381,6 +381,7 @@ func readFull(c net.Conn, b []byte) (int, error) {
 var exCtr atomic.Int32
 var oversize bool
 var workerPause time.Duration
+var shortDeadlines bool
 var planOf func(ex int) (string, string)
 
 type exchanger interface {
@@ -430,7 +431,7 @@ func doExchange(u exchanger, rng *rand.Rand, timeout time.Duration, quiet bool) 
 	if !quiet {
 		if planOf != nil {
 			u, t := planOf(ex)
-			tr.Emit("ex.begin", "ex", ex, "id", int(id), "deadline", tr.MsOf(dl), "udp", u, "tcp", t)
+			tr.Emit("ex.begin", "ex", ex, "id", int(id), "deadline", tr.MsOf(dl), "udp", u, "tcp", t, "short", shortDeadlines)
 		} else {
 			tr.Emit("ex.begin", "ex", ex, "id", int(id), "deadline", tr.MsOf(dl))
 		}
